@@ -28,7 +28,7 @@ REACH = ["value returned", "ParserError raised"]
 ALPHA = ["D", ":", "T", "Z", "W", "/", "P", "+", "-", ".", ",", " ", "Y", "M", "H", "S", "x"]
 BASES = ["DDDD-DD-DD", "DDDD-DD-DDTDD:DD:DD", "20DDDDDDTDDDDDD", "20DD-DDD", "20DD-WDD-D", "DD:DD:DD", "DDDD-DD-DD DD:DD:DD.DDD",
          "DDDD-DD-DDTDD:DD:DD+DD:DD", "DDDD-DD-DDTDD:DDZ", "PDYDMDDTDHDMDS", "PDW", "PTD.DS",
-         "2000-DD-DDTDD:00Z/PDD", "PDD/2000-DD-DDTDD:00Z", "2000-DD-DDTDD:00Z/2000-DD-DD"]
+         "2000/DD/DD DD:DD:DD.DDDDDDD", "2000-DD-DDTDD:00Z/PDD", "PDD/2000-DD-DDTDD:00Z", "2000-DD-DDTDD:00Z/2000-DD-DD"]
 
 
 def total(ctx, shape, opts):
